@@ -72,7 +72,7 @@ pub struct Checker {
     worker_got_task: BTreeMap<(u32, TaskKey), u64>,
     obligations: Vec<CancelObligation>,
     /// tasks that must never start: (task) -> reason
-    must_not_start: BTreeMap<TaskKey, (&'static str, &'static str, u64)>,
+    must_not_start: BTreeMap<TaskKey, (&'static str, &'static str, u64, bool)>,
     /// launches already examined
     launches_seen: usize,
     /// JobCompleted seen in E per job (also for forgotten jobs)
@@ -85,6 +85,9 @@ pub struct Checker {
     prev_core: Option<CoreSnapshot>,
     /// Tasks cancelled/aborted (by job) in the step in which a cancel was answered
     pub liveness_checked: bool,
+    seen_signatures: BTreeSet<(&'static str, String)>,
+    step_has_running_prefilled: bool,
+    tainted_workers: BTreeSet<u32>,
 }
 
 fn fnd(
@@ -124,6 +127,9 @@ impl Checker {
             steps: 0,
             prev_core: None,
             liveness_checked: false,
+            seen_signatures: BTreeSet::new(),
+            step_has_running_prefilled: false,
+            tainted_workers: BTreeSet::new(),
         }
     }
 
@@ -204,7 +210,7 @@ impl Checker {
                     step,
                 );
             }
-            self.findings.extend(out);
+            self.push_findings(out);
             return;
         }
         if obs.skipped {
@@ -297,7 +303,7 @@ impl Checker {
                                     self.probes.hit("submit_on_dead_dependency");
                                     self.must_not_start.insert(
                                         (jid, id),
-                                        ("C03", "late-dependent-of-dead-task", step),
+                                        ("C03", "late-dependent-of-dead-task", step, true),
                                     );
                                 }
                                 p.applied_job = Some(jid);
@@ -352,7 +358,7 @@ impl Checker {
                 }
                 EventPayload::TaskStarted { task_id, .. } => {
                     let k = tkey(*task_id);
-                    if let Some((prop, oracle, since)) = self.must_not_start.get(&k) {
+                    if let Some((prop, oracle, since, _)) = self.must_not_start.get(&k) {
                         fnd(
                             &mut out,
                             prop,
@@ -396,6 +402,14 @@ impl Checker {
         self.check_responses(world, action, obs, &step_canceled, &non_terminal_before, step, &mut out);
 
         // --- state invariants on snapshots (C02 bijection, C05, C08 consistency, C13 counters)
+        self.step_has_running_prefilled = matches!(
+            &obs.server_processed,
+            Some((_, FromWorkerMessage::TaskUpdate(ups)))
+                if ups.iter().any(|u| matches!(u, WorkerTaskUpdate::RunningPrefilled(_)))
+        );
+        if matches!(action, Action::CrashServer { .. }) {
+            self.tainted_workers.clear();
+        }
         if world.dead.is_none() && world.inc.is_some() {
             self.check_state(world, action, obs, step, &mut out);
         }
@@ -403,7 +417,18 @@ impl Checker {
         // --- obligations: a cancelled execution must observe the cancel
         self.check_obligations(world, action, step, &mut out);
 
-        self.findings.extend(out);
+        self.push_findings(out);
+    }
+
+    /// Only the first finding per signature is kept (the same inconsistency is usually seen
+    /// again at every later step)
+    fn push_findings(&mut self, out: Vec<Finding>) {
+        for f in out {
+            let key = (f.property, f.signature());
+            if self.seen_signatures.insert(key) {
+                self.findings.push(f);
+            }
+        }
     }
 
     fn check_streams(&mut self, obs: &StepObs, step: u64, out: &mut Vec<Finding>) {
@@ -468,12 +493,18 @@ impl Checker {
         };
         let root = workers.first().copied();
         let launches = world.launches.borrow();
+        // (the instance id in TaskStarted is the server's current one; it can be ahead of the
+        // execution's own id when the target of a pending redirect was lost meanwhile, so the
+        // match is on task and worker only)
         let ok = launches.iter().any(|l| {
-            l.task == k
-                && Some(l.worker) == root
-                && l.instance == *instance
-                && matches!(l.ended, Some((_, ExecEnd::Finished)))
+            l.task == k && Some(l.worker) == root && matches!(l.ended, Some((_, ExecEnd::Finished)))
         });
+        if launches
+            .iter()
+            .any(|l| l.task == k && Some(l.worker) == root && l.instance != *instance && l.ended.is_some())
+        {
+            self.probes.hit("started_event_instance_differs_from_execution");
+        }
         if !ok {
             fnd(
                 out,
@@ -612,7 +643,11 @@ impl Checker {
                             out,
                             "C03",
                             "launched-before-dependency",
-                            "",
+                            if t.dead_dep_at_submit {
+                                "dependency-dead-at-submit"
+                            } else {
+                                ""
+                            },
                             format!(
                                 "task {k:?} launched on worker {w} while dependency {d} is {:?}",
                                 ds.map(|s| s.kind())
@@ -625,6 +660,9 @@ impl Checker {
                     // Legal only if the worker has not yet processed the cancel (in flight)
                     self.probes.hit("launch_of_terminal_task_inflight");
                 }
+            } else if self.model.forgotten.contains(&k.0) {
+                // a task of a canceled and already forgotten job that was still on the wire
+                self.probes.hit("launch_of_forgotten_job_task_inflight");
             } else {
                 fnd(
                     out,
@@ -712,7 +750,9 @@ impl Checker {
                 }
             }
             // C03 (d) etc: tasks that must never start
-            if let Some((prop, oracle, since)) = self.must_not_start.get(&k) {
+            // (a launch of a task that was already on the wire when it was canceled/aborted is
+            // legal; only tasks that were never sent count here)
+            if let Some((prop, oracle, since, true)) = self.must_not_start.get(&k) {
                 fnd(
                     out,
                     prop,
@@ -805,6 +845,29 @@ impl Checker {
                 }
             }
         }
+        // "Tasks that were only queued on the lost worker are rescheduled without penalty":
+        // a loss-related failure of a task that was not reported running
+        if !lost.is_empty() {
+            for e in &obs.events {
+                if let EventPayload::TaskFailed { task_id, error } = &e.payload
+                    && (error.contains("lost worker") || error.contains("worker that was lost"))
+                {
+                    let k = tkey(*task_id);
+                    let was_running = lost.iter().any(|(_, _, r)| r.iter().any(|(t, _)| *t == k));
+                    if !was_running {
+                        let mn = self.model.task(k).is_some_and(|t| t.rq.is_multi_node());
+                        fnd(
+                            out,
+                            "C07",
+                            "queued-task-failed-by-loss",
+                            if mn { "multi-node-root-lost-before-start-reported" } else { "" },
+                            format!("task {k:?} failed because of a worker loss ({error}) although the server had not reported it as running"),
+                            step,
+                        );
+                    }
+                }
+            }
+        }
         if !lost.is_empty()
             && let Some(core) = world.core_snapshot()
         {
@@ -818,7 +881,11 @@ impl Checker {
                         out,
                         "C07",
                         "crash-count-differs",
-                        "",
+                        if mt.rq.is_multi_node() && t.crash_counter > mt.crash_count {
+                            "multi-node-root-lost-before-start-reported"
+                        } else {
+                            ""
+                        },
                         format!(
                             "task {k:?}: crash count in the server {} != {} lost-while-running failures",
                             t.crash_counter, mt.crash_count
@@ -926,7 +993,7 @@ impl Checker {
                     if t.state == MState::Aborted && t.terminal_step == Some(step) {
                         self.must_not_start
                             .entry((*j, *id))
-                            .or_insert(("C14", "started-after-limit", step));
+                            .or_insert(("C14", "started-after-limit", step, false));
                     }
                 }
             }
@@ -1006,7 +1073,7 @@ impl Checker {
                             for id in exp {
                                 self.must_not_start
                                     .entry((*j, *id))
-                                    .or_insert(("C08", "started-after-cancel", step));
+                                    .or_insert(("C08", "started-after-cancel", step, false));
                             }
                         }
                     }
@@ -1692,11 +1759,22 @@ impl Checker {
                     for (r, u) in used.iter().enumerate() {
                         let total = ws.resources.get(r).copied().unwrap_or(0);
                         if *u > total {
+                            // A worker hands the resources of an ending task over to a task from
+                            // its prefilled backlog; if the ended task had been canceled the
+                            // server has already given those resources to somebody else.
+                            let key = if self.step_has_running_prefilled
+                                || self.tainted_workers.contains(wid)
+                            {
+                                self.tainted_workers.insert(*wid);
+                                "prefilled-task-started-into-reassigned-resources"
+                            } else {
+                                ""
+                            };
                             fnd(
                                 out,
                                 "C05",
                                 "worker-overbooked",
-                                "",
+                                key,
                                 format!(
                                     "worker {wid}: tasks placed on it request {u} of resource {} ({}), it provides {total}",
                                     r,
@@ -1711,7 +1789,11 @@ impl Checker {
                                 out,
                                 "C05",
                                 "free-resources-drift",
-                                "",
+                                if self.tainted_workers.contains(wid) {
+                                    "after-prefilled-task-started-into-reassigned-resources"
+                                } else {
+                                    ""
+                                },
                                 format!(
                                     "worker {wid} resource {r}: server believes {f} is free, total {total} minus placed {u} = {}",
                                     total - *u
@@ -1947,7 +2029,8 @@ impl Checker {
             if worker_gone || l.ended.is_some() {
                 continue;
             }
-            if l.stop_seen.is_some_and(|(_, k)| k == StopKind::Cancel) {
+            // (a stop for the time limit that fired just before also stops the execution)
+            if l.stop_seen.is_some() {
                 self.probes.hit("cancel_observed_by_execution");
                 continue;
             }
@@ -1989,7 +2072,7 @@ impl Checker {
                     step,
                 );
             }
-            self.findings.extend(out);
+            self.push_findings(out);
             return;
         }
         self.probes.hit("quiescent_runs");
@@ -2150,7 +2233,7 @@ impl Checker {
                 self.probes.hit("blocked_request_at_rest");
             }
         }
-        self.findings.extend(out);
+        self.push_findings(out);
     }
 }
 
